@@ -12,6 +12,7 @@ CHECKS = {
     "C01": "mc.checks.tablefam",
     "C02": "mc.checks.tablefam",
     "C07": "mc.checks.tablefam",
+    "C08": "mc.checks.c08",
 }
 
 
